@@ -116,9 +116,6 @@ def natOps : StrOps Nat where
   ofBool := fun b => if b then 0x174727565 else 0x166616c7365   -- "true" / "false"
   ofInt := ofInt
 
-/-- The converters `ac_factory()` builds from the bundled maps. -/
-def bundledConvs : List (Conv Nat) := acFactory natOps Gen.AttrMaps.attrMaps
-
 /-- One entry per bundled map (`none`: the dictionary is not an attribute map). -/
 def bundledConvOf : List (Option (Conv Nat)) :=
   Gen.AttrMaps.attrMaps.map fun m => if isMap m then fromDict natOps m else none
